@@ -1,10 +1,15 @@
 (* Property C08 — Shortest-path options restrict the answer but never change it.
    Only pinned statements; proofs live in Proofs/ShortestPathOk.v (spec level) and
-   Proofs/DijkstraModelOk.v (the transcribed algorithm). *)
+   Proofs/DijkstraModelOk.v (the transcribed algorithm); end to end for every graph
+   state satisfying the invariant [WF] — every reachable graph — in Proofs/DijkstraWF.v
+   (C08_reachable_* / C08_constructed_*: the three entry points agree at the level of
+   node names). *)
 From Coq Require Import String List Bool ZArith QArith.
 From GV Require Import Base.Outcome Base.AMap Model.GState Model.Creation Model.Query Model.Dijkstra.
 From GV Require Import Spec.ShortestPathDef Spec.ShortestPathCheck Proofs.ShortestPathOk.
 From GV Require Import Proofs.DijkstraLoopOk Proofs.DijkstraModelOk Proofs.InvolvingOk Proofs.DijkstraEntryOk.
+From GV Require Import Spec.History Spec.ShortestPathRel Spec.EdgeStoreGraph.
+From GV Require Import Proofs.WFDefs Proofs.HistoryOk Proofs.DijkstraWF Proofs.DijkstraWFExamples.
 Import ListNotations.
 
 (* ---------------------------------------------------------------- the model *)
@@ -136,3 +141,112 @@ Proof. exact dist_triangle. Qed.
 Theorem C08_prefix_optimal : forall (g : wgraph) (s u v : nat) (w : Z) (p : list nat) (d x : Z),
   walk g s u p d -> wedge g u v w -> is_dist g s v x -> (d + w = x)%Z -> is_dist g s u d.
 Proof. exact sp_prefix. Qed.
+
+(* ---------------------------------------------------------------- end to end: every reachable graph *)
+Section Reachable.
+  Context {T A : Type}.
+  Variable teqb : T -> T -> bool.
+  Variable tltb : T -> T -> bool.
+  Hypothesis teqb_spec : forall x y, teqb x y = true <-> x = y.
+  Hypothesis tltb_asym : forall x y, tltb x y = true -> tltb y x = false.
+  Hypothesis tltb_total : forall x y, tltb x y = false -> tltb y x = false -> x = y.
+  Notation gstate := (gstate T A).
+  Notation WF := (@WF T A teqb tltb).
+
+  (* The entry points agree on node names.  On every WF graph with non-negative stored
+     weights (or hop count), existing source / target names and a cutoff >= 0,
+     multi_source returns Ok and its map has exactly the listed sources as keys, the
+     value at s being THE answer of single_source from s (characterised by
+     C04_reachable_single_source) — whatever the thread count. *)
+  Theorem C08_reachable_multi_source : forall (threads : nat) (g : gstate) (weighted : bool)
+      (sources : list T) (target : option T) (cutoff : option Q) (fo wp : bool),
+    WF g -> small_adj g -> (weighted = true -> weights_nonneg g) ->
+    (forall s, In s sources -> In s (names g)) ->
+    (forall t, target = Some t -> In t (names g)) ->
+    cutoff_exceeded cutoff 0 = false ->
+    exists mm,
+      multi_source teqb threads g weighted sources target cutoff fo wp = Ok mm /\
+      forall s m, lookup teqb s mm = Some m <->
+                  In s sources /\ single_source teqb g weighted s target cutoff fo wp = Ok m.
+  Proof. exact (wf_multi_source teqb tltb teqb_spec tltb_total). Qed.
+
+  (* all_pairs (weighted: every stored edge carries a weight, else it is
+     Err EdgeWeightNotSpecified — C08_all_pairs_unweighted_store) returns Ok and its map
+     has exactly the node names as keys, the value at s being the answer of
+     single_source from s. *)
+  Theorem C08_reachable_all_pairs : forall (threads : nat) (g : gstate) (weighted : bool)
+      (target : option T) (cutoff : option Q) (fo wp : bool),
+    WF g -> small_adj g -> (weighted = true -> weights_nonneg g) ->
+    (weighted = true -> edges_have_weight g = true) ->
+    (forall t, target = Some t -> In t (names g)) ->
+    cutoff_exceeded cutoff 0 = false ->
+    exists mm,
+      all_pairs teqb threads g weighted target cutoff fo wp = Ok mm /\
+      forall s m, lookup teqb s mm = Some m <->
+                  In s (names g) /\ single_source teqb g weighted s target cutoff fo wp = Ok m.
+  Proof. exact (wf_all_pairs teqb tltb teqb_spec tltb_total). Qed.
+
+  Theorem C08_all_pairs_unweighted_store : forall (threads : nat) (g : gstate)
+      (target : option T) (cutoff : option Q) (fo wp : bool),
+    edges_have_weight g = false ->
+    all_pairs teqb threads g true target cutoff fo wp = Err EdgeWeightNotSpecified.
+  Proof. exact (all_pairs_unweighted_store teqb). Qed.
+
+  (* get_all_shortest_paths_involving(x) returns Ok: exactly the all-pairs entries (which
+     exist, by the previous theorem) having a path with x strictly inside. *)
+  Theorem C08_reachable_involving : forall (threads : nat) (g : gstate) (x : T) (weighted : bool),
+    WF g -> small_adj g -> (weighted = true -> weights_nonneg g) ->
+    (weighted = true -> edges_have_weight g = true) ->
+    exists pairs l,
+      all_pairs teqb threads g weighted None None false true = Ok pairs /\
+      get_all_shortest_paths_involving teqb threads g x weighted = Ok l /\
+      forall spi, In spi l <->
+        (exists s t, exists m, In (s, m) pairs /\ In (t, spi) m) /\
+        exists p, In p (sp_paths spi) /\ inside x p.
+  Proof. exact (wf_involving teqb tltb teqb_spec tltb_total). Qed.
+
+  (* ... in particular for every graph returned by Graph::new_from_nodes_and_edges *)
+  Corollary C08_constructed_all_pairs : forall ns es (s : specs) (threads : nat) (g : gstate) (weighted : bool)
+      (target : option T) (cutoff : option Q) (fo wp : bool),
+    new_from_nodes_and_edges teqb tltb ns es s = Ok g ->
+    small_adj g -> (weighted = true -> weights_nonneg g) ->
+    (weighted = true -> edges_have_weight g = true) ->
+    (forall t, target = Some t -> In t (names g)) ->
+    cutoff_exceeded cutoff 0 = false ->
+    exists mm,
+      all_pairs teqb threads g weighted target cutoff fo wp = Ok mm /\
+      forall x m, lookup teqb x mm = Some m <->
+                  In x (names g) /\ single_source teqb g weighted x target cutoff fo wp = Ok m.
+  Proof.
+    intros ns es s threads g weighted target cutoff fo wp H.
+    exact (wf_all_pairs teqb tltb teqb_spec tltb_total threads g weighted target cutoff fo wp
+             (WF_reachable teqb tltb teqb_spec tltb_asym tltb_total s g (new_from_reachable teqb tltb teqb_spec ns es s g H))).
+  Qed.
+
+  Corollary C08_history_multi_source : forall (s : specs) (threads : nat) (g : gstate) (weighted : bool)
+      (sources : list T) (target : option T) (cutoff : option Q) (fo wp : bool),
+    reachable teqb tltb s g -> small_adj g -> (weighted = true -> weights_nonneg g) ->
+    (forall x, In x sources -> In x (names g)) ->
+    (forall t, target = Some t -> In t (names g)) ->
+    cutoff_exceeded cutoff 0 = false ->
+    exists mm,
+      multi_source teqb threads g weighted sources target cutoff fo wp = Ok mm /\
+      forall x m, lookup teqb x mm = Some m <->
+                  In x sources /\ single_source teqb g weighted x target cutoff fo wp = Ok m.
+  Proof.
+    intros s threads g weighted sources target cutoff fo wp R.
+    exact (wf_multi_source teqb tltb teqb_spec tltb_total threads g weighted sources target cutoff fo wp
+             (WF_reachable teqb tltb teqb_spec tltb_asym tltb_total s g R)).
+  Qed.
+End Reachable.
+
+(* non-vacuity: see C04_reachable_hypotheses_nonvacuous (the same example graph: reachable,
+   WF, small, non-negative weights, all three entry points return Ok on it) *)
+Example C08_reachable_hypotheses_nonvacuous :
+  WF Z.eqb Z.ltb ex_g /\ small_adj ex_g /\ weights_nonneg ex_g /\ edges_have_weight ex_g = true /\
+  (exists mm, multi_source Z.eqb 1 ex_g true [3%Z; 5%Z] None None false true = Ok mm /\ length mm = 2%nat) /\
+  (exists mm, all_pairs Z.eqb 1 ex_g true None None false true = Ok mm /\ length mm = 4%nat).
+Proof.
+  destruct reachable_hypotheses_nonvacuous as (_ & H1 & H2 & H3 & H4 & _ & _ & _ & H5 & H6).
+  exact (conj H1 (conj H2 (conj H3 (conj H4 (conj H5 H6))))).
+Qed.
